@@ -702,8 +702,9 @@ theorem C17_ledger_only_required (s0 : State) (h0 : LedgerBounded s0) (ops : Lis
 when a deposit mints, the recipient's whole ledger row is zero afterwards (entries of required collections are removed
 by the mint, entries of other collections never exist). The admin's airdrops (`MintTo` / `MintFor`) are mints too and by
 design do NOT reset anything (`C17_admin_mint_frame`, `C17_reset_after_each_mint_counterexample`): "each mint" in the
-text is therefore only proved — and only true of the code — for mints caused by deposits. -/
-theorem C17_reset (s0 : State) (h0 : LedgerBounded s0) (ops : List Op) {s' : State} {caller coll : Addr} {id : Nat}
+text is therefore only proved — and only true of the code — for mints caused by deposits; the airdrop case is recorded
+as an observation (DESIGN 13.3), not a finding. PARTIAL statement of the clause (hence the name). -/
+theorem C17_reset_after_each_mint_partial (s0 : State) (h0 : LedgerBounded s0) (ops : List Op) {s' : State} {caller coll : Addr} {id : Nat}
     {contract : Addr} {rcp : Option Addr} {msgOk : Bool} {picked : Option Nat}
     (h : step (run s0 ops) (.send caller coll id contract rcp msgOk picked) = .ok s')
     (hminted : s'.tgtNum = (run s0 ops).tgtNum + 1) : ∀ c, s'.ledger (rcp.getD caller) c = 0 := by
@@ -725,6 +726,13 @@ theorem C17_reset (s0 : State) (h0 : LedgerBounded s0) (ops : List Op) {s' : Sta
         rw [(requiredOf_none_iff _ _).mpr hc] at hreq; cases hreq
       simp [hc, upd2, hne, hz]
   · omega
+
+/-- alias of `C17_reset_after_each_mint_partial` (kept because other modules refer to it) -/
+theorem C17_reset (s0 : State) (h0 : LedgerBounded s0) (ops : List Op) {s' : State} {caller coll : Addr} {id : Nat}
+    {contract : Addr} {rcp : Option Addr} {msgOk : Bool} {picked : Option Nat}
+    (h : step (run s0 ops) (.send caller coll id contract rcp msgOk picked) = .ok s')
+    (hminted : s'.tgtNum = (run s0 ops).tgtNum + 1) : ∀ c, s'.ledger (rcp.getD caller) c = 0 :=
+  C17_reset_after_each_mint_partial s0 h0 ops h hminted
 
 /-- the reset at hook level, for the required collections, in any state -/
 theorem C17_reset_hook {s : State} {caller sender : Addr} {tid : Nat} {rcp : Option Addr} {picked : Option Nat}
@@ -1466,8 +1474,9 @@ theorem C17_start_frozen_after_first_credit (s0 : State) (h0 : ∀ r c, s0.ledge
 /- FULL STATEMENT of the first clause, read literally: *"the minter mints a new token to a recipient EXACTLY WHEN …
 that recipient has been credited the required number of tokens from every required collection"*, i.e.
   `∀ s op s', step s op = .ok s' → (s'.tgtNum = s.tgtNum + 1 ↔ ∃ r c, depositOf op = some (r, c) ∧ Fulfilled s r c)`.
-The unchanged code contradicts it: the admin's `MintTo` / `MintFor` (airdrops) mint to any recipient without any deposit
-(`C17_mint_exactly_when_counterexample`). Proved: the statement for every operation that is not such an airdrop. -/
+Read this strictly it does not hold on the unchanged code: the admin's `MintTo` / `MintFor` (airdrops) mint to any recipient
+without any deposit (`C17_mint_exactly_when_counterexample`; by-design behaviour, recorded as an observation (DESIGN 13.3),
+not a finding). Proved: the statement for every operation that is not such an airdrop. -/
 theorem C17_mint_exactly_when_partial {s s' : State} {op : Op} (h : step s op = .ok s')
     (hna : ∀ r p w k, op ≠ .mintTo s.admin r p w k) (hna' : ∀ i r p w, op ≠ .mintFor s.admin i r p w) :
     (s'.tgtNum = s.tgtNum + 1 ↔ ∃ r c, depositOf op = some (r, c) ∧ Fulfilled s r c) ∧
@@ -1945,7 +1954,7 @@ theorem C17_mint_exactly_when_counterexample :
   revert this; decide
 
 /- FULL STATEMENT of the reset clause, read literally: *"the recipient's deposit ledger is reset after EACH mint"*, i.e.
-after any operation that mints to `r`, `∀ c, ledger r c = 0`. Proved for deposit-triggered mints (`C17_reset`,
+after any operation that mints to `r`, `∀ c, ledger r c = 0`. Proved for deposit-triggered mints (`C17_reset_after_each_mint_partial`,
 `C17_reset_hook`); the admin's airdrops by design neither need nor consume credits (`C17_admin_mint_frame`), so: -/
 /-- an airdrop to 20 while 20 holds a partial ledger (2 of the 3 required tokens): a token IS minted to 20 and the ledger
 is NOT reset. -/
